@@ -135,7 +135,7 @@ def specs(w):
     shapes4 = gen.dag_shapes(4)
     kinds = ["method", "static", "class", "pget", "pset", "pdel", "init", "new"]
     idx = 0
-    for rnd in range(10 if thorough else 1):
+    for rnd in range(40 if thorough else 4):
         for is_async in (False, True):
             idx += 1
             if idx % w.nshards == w.shard:
